@@ -4,7 +4,7 @@ use indexmap::IndexMap;
 use noodles_core::Position;
 
 use super::index::{
-    Header, Index, ReferenceSequence,
+    Header, Index, ReferenceSequence, max_position,
     reference_sequence::{self, bin::Chunk},
 };
 
@@ -112,6 +112,14 @@ where
             }
             Ordering::Equal => {}
             Ordering::Greater => self.add_reference_sequences_until(reference_sequence_id),
+        }
+
+        // Bins only exist for positions up to the limit of the bin geometry.
+        if end > max_position(self.min_shift, self.depth)? {
+            return Err(io::Error::new(
+                io::ErrorKind::InvalidInput,
+                "invalid end position: out of range for the bin geometry",
+            ));
         }
 
         let reference_sequence = &mut self.reference_sequences[reference_sequence_id];
